@@ -1,8 +1,97 @@
 import NauyacaVerif.Drv.Common
+import NauyacaVerif.Drv.SrvD
+import NauyacaVerif.Misc.Pump
+import NauyacaVerif.Misc.PumpWrap
+import NauyacaVerif.Srv.Render
+import NauyacaVerif.Gen.Params
+import NauyacaVerif.Gen.Tls
 namespace NauyacaVerif.Drv.PumpD
-open NauyacaVerif.Drv
+open NauyacaVerif.Drv Misc
 
-/-- line-protocol handler of this area; `none` = not one of ours -/
+/-- accept behaviour of one `SSL_write`: `min<k>` (at most one record of k bytes), `all`, `one`, `half` -/
+def parseAccept (s : String) : Option (Nat → Nat) :=
+  if s == "all" then some (fun n => n)
+  else if s == "one" then some (fun _ => 1)
+  else if s == "half" then some (fun n => (n + 1) / 2)
+  else if s.startsWith "min" then
+    match (s.drop 3).toString.toNat? with
+    | some k => if k = 0 then none else some (fun n => min n k)
+    | none => none
+  else none
+
+def rle : List Nat → List (Nat × Nat)
+  | [] => []
+  | x :: xs =>
+    match rle xs with
+    | (y, c) :: r => if x = y then (y, c + 1) :: r else (x, 1) :: (y, c) :: r
+    | [] => [(x, 1)]
+
+def showRle (l : List Nat) : String :=
+  if l.isEmpty then "-" else ",".intercalate ((rle l).map (fun p => if p.2 = 1 then toString p.1 else s!"{p.1}x{p.2}"))
+
+/-- flush chunk size as the current source has it -/
+def chunk : Nat := match Gen.recvSizes with | [n] => n | _ => 0
+
+/-- record sizes of one `write(data)` of `n` bytes, as the current source does it -/
+def recordSizes (accept : Nat → Nat) (n : Nat) : List Nat :=
+  if Gen.wrapperUsesSendall then sendAllSizes accept n n else (if n = 0 then [0] else [min (accept n) n])
+
+def flushSizes (pending : Nat) : List Nat := drainSizes chunk pending pending
+
+/-- sizes of the TCP writes of one wrapper `write`: every record grows by `ovh` bytes when sealed -/
+def writeTcp (accept : Nat → Nat) (ovh n : Nat) : List Nat :=
+  flushSizes ((recordSizes accept n).foldl (fun a r => a + r + ovh) 0)
+
+def wrapLine (accept : Nat → Nat) (ovh cn : Nat) (lens : List Nat) : String :=
+  let recs := lens.map (recordSizes accept)
+  let tcp := (lens.map (writeTcp accept ovh)).flatten ++ flushSizes cn
+  s!"rec={";".intercalate (recs.map showRle)} tcp={showRle tcp} sum={(recs.map (fun l => l.foldl (· + ·) 0))}"
+
+def verOfRank? (n : Nat) : Option Ver := if n ≤ 4 then some (ofRank n) else none
+
+def showVer : Option Ver → String
+  | none => "none"
+  | some .ssl3 => "ssl3" | some .tls10 => "tls10" | some .tls11 => "tls11" | some .tls12 => "tls12" | some .tls13 => "tls13"
+
 def handle : List String → Option String
+  | "sendall" :: ak :: lens =>
+    match parseAccept ak, lens.mapM String.toNat? with
+    | some accept, some ls =>
+      if ls.isEmpty then some "bad-op" else
+      some s!"ok {";".intercalate (ls.map (fun n => showRle (recordSizes accept n)))} sum={ls.map (fun n => (recordSizes accept n).foldl (· + ·) 0)}"
+    | _, _ => some "bad-op"
+  | "drain" :: lens =>
+    match lens.mapM String.toNat? with
+    | some ls => if ls.isEmpty then some "bad-op" else
+      some s!"ok {";".intercalate (ls.map (fun n => showRle (flushSizes n)))} sum={ls.map (fun n => (flushSizes n).foldl (· + ·) 0)}"
+    | none => some "bad-op"
+  | "wrap" :: ak :: ovh :: cn :: lens =>
+    match parseAccept ak, ovh.toNat?, cn.toNat?, lens.mapM String.toNat? with
+    | some accept, some ovh, some cn, some ls => some s!"ok {wrapLine accept ovh cn ls}"
+    | _, _, _, _ => some "bad-op"
+  | ["c06", ak, ovh, cn, "r", resp] =>
+    match parseAccept ak, ovh.toNat?, cn.toNat?, SrvD.parseResp resp with
+    | some accept, some ovh, some cn, some r =>
+      let (h, b) := Srv.render r
+      let lens := if b.isEmpty then [h.length] else [h.length, b.length]
+      some s!"ok hdr={toHex h} body={toHex b} blen={b.length} {wrapLine accept ovh cn lens}"
+    | _, _, _, _ => some "bad-op"
+  | ["c06", ak, ovh, cn, "n", resp, blen] =>
+    -- big bodies: the header is rendered from the response without its body, the body only by length
+    match parseAccept ak, ovh.toNat?, cn.toNat?, SrvD.parseResp resp, blen.toNat? with
+    | some accept, some ovh, some cn, some r, some bl =>
+      let (h, _) := Srv.render r
+      let lens := if bl = 0 then [h.length] else [h.length, bl]
+      some s!"ok hdr={toHex h} body=? blen={bl} {wrapLine accept ovh cn lens}"
+    | _, _, _, _, _ => some "bad-op"
+  | ["tlsver", path, lo, hi] =>
+    match path.toNat?, lo.toNat?.bind verOfRank?, hi.toNat?.bind verOfRank? with
+    | some pid, some lo, some hi =>
+      match Gen.contextPaths.find? (fun p => p.1 == pid) with
+      | some p =>
+        let peer : Range := ⟨lo, hi⟩
+        some s!"ok v={showVer (negotiate ⟨ofRank p.2.1, ofRank p.2.2⟩ peer)} ctrl={showVer (negotiate ⟨.tls10, .tls13⟩ peer)}"
+      | none => some "no-such-path"
+    | _, _, _ => some "bad-op"
   | _ => none
 end NauyacaVerif.Drv.PumpD
